@@ -183,6 +183,62 @@ theorem vector_alias_as_written_counterexample :
     Vec.insertNAliasAsWritten (⟨[1, 2], 2⟩ : Vec Nat) 2 3 0 = none := by
   decide
 
+
+/-! ## Vector: placement discipline and the direction of element-wise copies -/
+
+/-- The three storage primitives every XalanVector code path is transcribed into are exactly the
+manual placement discipline: **construct** only the raw cell at index `size` (and only below the
+allocation), **assign** only into cells below `size` (already constructed), **destroy** only the
+last constructed cell.  Any other use is `none`; `vector_refines` shows no operation ever reaches
+`none`, so every cell is constructed exactly once before use and destroyed exactly once, and the
+constructed cells are always `[0, size)`.  (The correspondence run observes the same on the real code
+through the live-instance count `L=` of the instrumented element class.) -/
+theorem vector_placement_discipline (v : Vec α) :
+    (∀ x, (v.rawPush x).isSome ↔ v.items.length < v.alloc) ∧
+    (∀ x v', v.rawPush x = some v' → v'.items = v.items ++ [x] ∧ v'.alloc = v.alloc) ∧
+    (∀ pos seg, (v.overwrite pos seg).isSome ↔ pos + seg.length ≤ v.items.length) ∧
+    (∀ pos seg v', v.overwrite pos seg = some v' → v'.items.length = v.items.length ∧ v'.alloc = v.alloc) ∧
+    (v.popBack.isSome ↔ v.items ≠ []) ∧
+    (∀ v', v.popBack = some v' → v'.items = v.items.dropLast ∧ v'.alloc = v.alloc) := by
+  refine ⟨?_, ?_, ?_, ?_, ?_, ?_⟩
+  · intro x; unfold Vec.rawPush; split <;> simp [*]
+  · intro x v' h; unfold Vec.rawPush at h; split at h
+    · cases h; exact ⟨rfl, rfl⟩
+    · cases h
+  · intro pos seg; unfold Vec.overwrite; split <;> simp [*]
+  · intro pos seg v' h; unfold Vec.overwrite at h; split at h
+    · rename_i hle; cases h
+      refine ⟨?_, rfl⟩
+      simp only [List.length_append, List.length_take, List.length_drop]; omega
+    · cases h
+  · unfold Vec.popBack; split
+    · rename_i h0; simp [List.eq_nil_of_length_eq_zero h0]
+    · rename_i h0; simp only [Option.isSome_some, true_iff]; intro e; apply h0; rw [e]; rfl
+  · intro v' h; unfold Vec.popBack at h; split at h
+    · cases h
+    · cases h; exact ⟨rfl, rfl⟩
+
+/-- `std::copy_backward` (descending element-wise assignments) shifting a segment to the **right**
+inside the buffer delivers the original segment, … -/
+theorem vector_copy_backward_shift_right (n : Nat) (v : Vec α) (s d : Nat) (hsd : s ≤ d) (hb : d + n ≤ v.items.length) :
+    Vec.copyBwd v s d n = some ⟨v.items.take d ++ (v.items.drop s).take n ++ v.items.drop (d + n), v.alloc⟩ :=
+  Vec.copyBwd_spec n v s d hsd hb
+
+/-- … and forward `std::copy` does so when shifting to the **left** (`erase`). -/
+theorem vector_copy_forward_shift_left (n : Nat) (v : Vec α) (s d : Nat) (hds : d ≤ s) (hb : s + n ≤ v.items.length) :
+    Vec.copyFwd v s d n = some ⟨v.items.take d ++ (v.items.drop s).take n ++ v.items.drop (d + n), v.alloc⟩ :=
+  Vec.copyFwd_spec n v s d hds hb
+
+/-- With the tail shifted by a **forward** copy the in-place `insert(pos, first, last)` smears the
+elements behind the position: `{1,2,3}` with capacity 9, one element inserted at index 0 gives
+`7 1 1 3` instead of `7 1 2 3` (`insertRange`, which uses `copy_backward`, is proved correct for all
+inputs by `vector_step_refines`).  Only an element type with a real copy assignment shows it on the
+real code — libstdc++ turns both calls into `memmove` for trivially copyable types. -/
+theorem vector_insert_forward_copy_counterexample :
+    (Vec.insertRangeForwardCopy (⟨[1, 2, 3], 9⟩ : Vec Nat) 0 [7]).map (·.items) = some [7, 1, 1, 3] ∧
+    (Vec.insertRange (⟨[1, 2, 3], 9⟩ : Vec Nat) 0 [7]).map (·.items) = some [7, 1, 2, 3] := by
+  decide
+
 /-! ## XalanMap / XalanSet: refinement to an insertion-ordered association list -/
 
 inductive MOp (κ ν : Type) where
